@@ -268,7 +268,7 @@ fn git_layer(ctx: &Ctx, quick: bool) -> Stats {
                     if nearest.is_empty() { continue; }
                     // highest tag per nearest commit
                     let bases: Vec<[u64; 3]> = nearest.iter().map(|t| { let same: Vec<&&Tag> = tagged.iter().filter(|u| u.target == t.target).collect(); same.iter().map(|u| names.iter().find(|x| x.0 == u.name).map(|x| x.1).unwrap_or([1, 0, 0])).max().unwrap() }).collect();
-                    let wts: &[WorkTree] = if tags.len() == 1 && n >= 4 && quick { &[WorkTree::Clean, WorkTree::Untracked, WorkTree::TouchedTracked] } else if tags.len() == 1 { &[WorkTree::Clean, WorkTree::Untracked, WorkTree::ModifiedTracked, WorkTree::GitlinkMoved, WorkTree::StagedModWorktreeAsHead, WorkTree::TouchedTracked] } else if tags.len() == 3 { &[WorkTree::Clean, WorkTree::Untracked] } else { &[WorkTree::Clean] };
+                    let wts: &[WorkTree] = if tags.len() == 1 && n >= 4 && quick { &[WorkTree::Clean, WorkTree::Untracked, WorkTree::TouchedTracked, WorkTree::UserIgnoredUntracked] } else if tags.len() == 1 { &[WorkTree::Clean, WorkTree::Untracked, WorkTree::ModifiedTracked, WorkTree::GitlinkMoved, WorkTree::StagedModWorktreeAsHead, WorkTree::TouchedTracked, WorkTree::UserIgnoredUntracked, WorkTree::InfoExcludedUntracked] } else if tags.len() == 3 { &[WorkTree::Clean, WorkTree::Untracked] } else { &[WorkTree::Clean] };
                     for &wt in wts {
                         repo.reset_worktree();
                         repo.set_worktree(wt, "f0");
